@@ -55,6 +55,9 @@ func pathDocs() []func() jsonline.Row {
 		},
 		parse(`{}`),
 		parse(`{"a":1}`),
+		// literal names that CONTAIN dots and spell the tail (or the whole) of a path into real nested members: such a
+		// name is not addressable by a dotted path, the nested chain is
+		parse(`{"a":{"b":{"c":1,"d":null},"b.c":"flat-bc","e":[{"f":1,"f.g":"flat"}]},"a.b.c":"flat-abc","a.b":"flat-ab","s":1,"arr":[{"k":{"v":1},"k.v":"flat"}],"arr.k":"flat","deep":{"l1":{"l2":{"l3":"x"}},"l1.l2.l3":"flat"}}`),
 		// nested objects held as Go maps (Set / Import / CreateRow given a map): not rows, so a path stops there
 		func() jsonline.Row {
 			return sub("m", map[string]interface{}{"p": json.Number("1"), "q": map[string]interface{}{"r": json.Number("2")}}, "a", sub("b", map[string]interface{}{"c": json.Number("3")}), "s", json.Number("1"))
